@@ -475,6 +475,8 @@ pub fn lit_defs() -> Vec<SubjectDef> {
     vec![
         lit(true, vec![ci(rx("ⅰ"))], vec![vec![ci(tok("ⅷ"))], vec![ci(tok("ἀρχή"))], vec![ci(tok("ā"))], vec![ci(tok("яа"))], vec![ci(tok("𐐨"))], vec![ci(rx("ὀ+"))], vec![tok("ⅸ")]]),
         lit(true, vec![], vec![vec![ci(tok("ſk"))], vec![ci(tok("straße"))], vec![ci(tok("ǆ"))], vec![ci(tok("σ."))], vec![tok("a+b")], vec![tok("(?i)")], vec![tok("[a-z]")], vec![tok("\\")]]),
+        // aliases: several case-insensitive literals on one variant, the later ones prefixes / extensions of the earlier
+        lit(true, vec![], vec![vec![ci(tok("integer")), ci(tok("int")), ci(tok("i64"))], vec![ci(tok("σς")), tok("ς"), ci(tok("é+"))], vec![tok("x")]]),
         lit(false, vec![], vec![vec![ci(PatSpec::token(LitSpec::bytes(b"k\xC3\xA9".to_vec())))], vec![ci(PatSpec::token(LitSpec::bytes(b"Q\xff".to_vec())))], vec![ci(tok("ⅷ"))], vec![PatSpec::token(LitSpec::bytes(b"\x00.".to_vec()))]]),
     ]
 }
